@@ -35,7 +35,7 @@ def main():
         (client_common.build, [("c15", {"maxes": "2", "script": "2", "end2s": "3"}, 15 if q else 90, True)]),
         (server_common.build, [("c05", {"sessions": "2", "other": "single", "light": "1"}, 15 if q else 90, True), ("c01", {"faults": "1", "payloads": "1", "maxidx": "4"}, 20 if q else 120, True),
                                ("c18-ringconc", {"setters": "3"}, 8 if q else 30, True)]),
-        (proxy_common.build, [("c16", {"capacities": "2", "maxlen": "2"}, 15 if q else 90, True), ("c16-load", {}, 8 if q else 30, True)]),
+        (proxy_common.build, [("c16", {"capacities": "2", "maxlen": "2"}, 15 if q else 90, True), ("c16-load", {}, 8 if q else 30, True), ("c20-byteslogger", {}, 8 if q else 30, True)]),
         (safelog_common.build, [("c07-writers", {"writers": "2"}, 8 if q else 40, False)]),
     ]
     passes = []
@@ -124,7 +124,7 @@ def main():
         for f in glob.glob(os.path.join(work, "race-c16t2.*")):
             os.remove(f)
         t0 = time.time()
-        res = enumlib.run(eb, "TestVerifEnumC16T2", tier, 150 if q else 600, nshards=12,
+        res = enumlib.run(eb, "TestVerifEnumC16T2", tier, 240 if q else 900, nshards=14,
                           env_extra={"GORACE": "halt_on_error=0 exitcode=0 history_size=3 log_path=%s/race-c16t2" % work}, accept_test_failure=True)
         viol, honly, mx, eng = racelib.collect(work, "c16t2", pattern="race-%s.*")
         harness_only += honly
